@@ -148,7 +148,7 @@ pub broadcast proof fn lemma_concat_all_unfold(parts: Seq<Str>, n: int)
     ensures #[trigger] concat_all(parts, n) == (if n <= 0 { Seq::<char>::empty() } else { concat_all(parts, n - 1).add(parts[n - 1]@) })
 { }
 #[verifier::external_body]
-pub fn vx_concat(parts: Vec<Str>) -> (r: Str) ensures r@ == concat_all(parts@, parts@.len() as int) { unimplemented!() }
+pub fn vx_concat(parts: &[Str]) -> (r: Str) ensures r@ == concat_all(parts@, parts@.len() as int) { unimplemented!() }
 impl Str {
     #[verifier::external_body]
     pub fn vx_disp(&self) -> (r: Str) ensures r@ == self@ { Str { s: self.s.clone() } }
